@@ -767,6 +767,15 @@ pub fn crash_suites(thorough: bool) -> Vec<Suite> {
     v.push(crash_suite("crash-evil-v3", disk(3, true, false), crash_tables(3), crash_evil_ops(), d(4, 5)));
     v.push(crash_suite("crash-ttl-v3", disk(3, true, true), crash_tables(3), crash_ttl_ops(), d(4, 5)));
     v.push(crash_suite("crash-core-v2", disk(2, true, false), crash_tables(2), crash_core_ops(), d(3, 4)));
+    // record heads filled to the last byte: the longest key a head block holds, and one byte less
+    for format in [3u32, 1] {
+        let cfg = disk(format, true, false);
+        let mut t = std_tables();
+        t.keys = vec![vec![b'M'; cfg.max_key()], vec![b'L'; cfg.max_key() - 1]];
+        t.bounds = vec![b"".to_vec(), vec![b'L'; 1], vec![b'M'; 1], vec![0xff; 8]];
+        let ops = vec![ins(0, V_X), ins(0, V_BIG2), ins(1, V_X), ins(1, V_Y), Op::Delete { k: 0, ts: 0 }, Op::Flush, Op::Tick];
+        v.push(crash_suite(&format!("crash-maxkey-v{format}"), cfg, t, ops, d(3, 4)));
+    }
     v.push(crash_suite("crash-edge-v1", disk(1, true, false), edge_tables(), crash_edge_ops(), d(4, 5)));
     v.push(crash_suite("crash-edge-v2", disk(2, true, false), edge_tables(), crash_edge_ops(), d(3, 4)));
     v.push(crash_suite("crash-small-v3", small_disk(3, 5), crash_tables(3), crash_core_ops(), d(4, 6)));
